@@ -125,10 +125,12 @@ Judge(s, e) ==
     [] e.kind = "stream" ->
          LET fits == { P \in Picks(e) : LET n == ApplySeq(s, OpsOf(e, P))
                                         IN SameOn(e, n) /\ Covered(e, s, n) /\ CountOk(e, n) }
-             \* every item is counted as applied or failed - or the server reports at least one failure and stopped
-             \* reading (a decode / transport error poisons the rest of a client stream; the call still answers with counts)
+             \* every item is counted as applied or failed - or, when the stream holds an item the transport cannot decode
+             \* (e.poison: a message over the size limit), the server reports at least one failure and stopped reading (a
+             \* decode error ends a client stream; the call still answers with counts).  An item that decodes and is merely
+             \* invalid fails by itself: the items after it are still owed an answer.
              all  == \/ e.applied + e.failed = Total(e.groups)
-                     \/ (e.failed >= 1 /\ e.applied + e.failed < Total(e.groups))
+                     \/ ((IF "poison" \in DOMAIN e THEN e.poison ELSE TRUE) /\ e.failed >= 1 /\ e.applied + e.failed < Total(e.groups))
          IN [why |-> base \cup (IF all THEN {} ELSE {"items without an answer"})
                           \cup (IF fits # {} THEN {}
                                 ELSE IF same THEN {"applied count not explained by the valid items"}
